@@ -55,15 +55,17 @@ import (
 // ---------------------------------------------------------------------------------------------------
 // universe
 
-// the 4 representative type sets; set 1 lists "tree" second on purpose
+// the 5 representative type lists; list 1 names "tree" second on purpose, list 4 names it twice (a type list is a
+// list on the wire and in the configuration file, nothing removes duplicates): it is still ONE sync node
 var typeSets = [][]nodeconf.NodeType{
 	{"tree"},
 	{"file", "tree"},
 	{"file"},
 	{"coordinator", "consensus"},
+	{"tree", "coordinator", "tree"},
 }
 
-var typeSetNames = []string{"tree", "file+tree", "file", "coordinator+consensus"}
+var typeSetNames = []string{"tree", "file+tree", "file", "coordinator+consensus", "tree+coordinator+tree"}
 
 // reference: is a node with these types a sync node?
 func refIsSync(types []string) bool {
